@@ -5,11 +5,12 @@ from . import structural as st
 from . import gencorr as g
 from . import gencrate
 from . import rt
+from . import yacorr
 from .common import Check
 
 
 def run_rt(pid, tier, seed, prop_module, audit_file, checker_cmd, profiles, inst_file, pick_violation, check_restrictions,
-           assumptions, rule, extra_after=None):
+           assumptions, rule, extra_after=None, extra_props=(), ya=False):
     """pick_violation(verdict_text) -> class name or None: which round-trip problems this property is about"""
     c = Check(pid, tier, seed)
     ok, err = c.build_harness()
@@ -19,8 +20,10 @@ def run_rt(pid, tier, seed, prop_module, audit_file, checker_cmd, profiles, inst
     c.extract()
     c.lake_build(["zvspec"])
     proved = c.prove(prop_module, audit_file)
+    for em, ea in extra_props:
+        proved = c.prove(em, ea) and proved
     if tier == "thorough" and proved:
-        c.leanchecker([prop_module])
+        c.leanchecker([prop_module] + [em for em, _ in extra_props])
     model_ok, model_err = c.lake_build(["zvdrv"])
     root = g.scratch(f"{pid}-{tier}-{seed}")
     cases = []
@@ -37,11 +40,24 @@ def run_rt(pid, tier, seed, prop_module, audit_file, checker_cmd, profiles, inst
     corr = [cs for cs in cases if model_ok and not cs.get("same_bytes")]
     violations, excluded, passed = [], [], []
     build_problems = []
+    ya_stats = {"compared": 0, "skipped": 0, "classes": collections.Counter(), "hyp": collections.Counter()}
+    ya_dis = []
     for i in range(0, len(cases), 48):
         res, info = rt.run_roundtrips(cases[i:i + 48], inst_file)
         if info["rc"] != 0:
             build_problems.append(info)
             continue
+        if ya and model_ok:
+            # the yaserde environment model against the real crates, on the very same round trips
+            comp, dis, skipped, classes = yacorr.check(res)
+            ya_stats["compared"] += comp
+            ya_stats["skipped"] += skipped
+            ya_dis += dis
+            for k, v2 in classes.items():
+                if k == "hypotheses":
+                    ya_stats["hyp"].update(v2)
+                elif not k.startswith("_"):
+                    ya_stats["classes"][k] += v2
         v, e, p = rt.classify(res, check_restrictions)
         violations += v
         excluded += e
@@ -73,6 +89,19 @@ def run_rt(pid, tier, seed, prop_module, audit_file, checker_cmd, profiles, inst
         "disagreements_checked": len(cases) if model_ok else 0,
         "model_vs_impl_disagreements": len(corr),
     })
+    progof_n, progof_dis = (0, [])
+    if ya and model_ok:
+        progof_n, progof_dis = yacorr.check_progof(cases, limit=40 if tier == "quick" else 400)
+        c.cov["yaserde_model"] = {
+            "round_trips_compared_with_the_real_crates": ya_stats["compared"],
+            "disagreements": len(ya_dis),
+            "real_outcome_classes": dict(ya_stats["classes"]),
+            "theorem_hypotheses_on_real_programs_and_values": dict(ya_stats["hyp"]),
+            "progOf_of_model_document_vs_derive_input_of_real_output": {"programs": progof_n, "disagreements": len(progof_dis)},
+        }
+        c.assumptions.append("yaserde 0.12 / yaserde_derive 0.12 / xml-rs 0.8 are modelled by Ya (lean/ZeepVerif/Ya/Model.lean): the theorems of Props/C03Ya, C04Ya are about that model; "
+                             "on every run the model is given the derive input read from the real emitted file and every instance of the batch, and must predict the real outcome class and reserialised infoset; "
+                             "elements nested in an element of the same (recursive) type, on which the runtime's event loop fails for hand-written reference structs too, are outside the model")
     c.assumptions += list(assumptions)
     if extra_after is not None:
         extra_after(c, cases, mine)
@@ -86,8 +115,14 @@ def run_rt(pid, tier, seed, prop_module, audit_file, checker_cmd, profiles, inst
             vi, r = min(items, key=lambda t: len(t[1]["inst"]["xml"]))
             rp = st.save_replay(c, r["case"], vi, {"class": cls, "count": len(items), "type": r["inst"]["type"], "instance": r["inst"]["xml"], "reserialised": r["out"]})
             c.violation(rp)
-    elif not build_problems and (c.proof["errors"] or not model_ok or corr):
+    elif not build_problems and (c.proof["errors"] or not model_ok or corr or ya_dis or progof_dis):
         what = []
+        if ya_dis:
+            r0, d0 = ya_dis[0]
+            what.append({"broken": "correspondence of the yaserde environment model Ya with the real crates", "count": len(ya_dis), "first": d0[:400],
+                         "instance": r0["inst"]["xml"][:600], "real_output": (r0["out"] or "")[:600]})
+        if progof_dis:
+            what.append({"broken": "Ya.progOf (derive input computed from the model's document) vs the derive input read from the real emitted file", "count": len(progof_dis), "first": progof_dis[0][1][:600]})
         if c.proof["errors"]:
             what.append({"broken": f"proof obligations of {prop_module}", "errors": c.proof["errors"]})
         if not model_ok:
